@@ -5,10 +5,12 @@
 // rendered (a) to the pattern string given to typematch.Parse and (b) to the model's pattern term. Every pattern is matched
 // against EVERY type of the pool (the types the patterns were abstracted from, near-miss mutants, aliases, vendored copies,
 // instantiations). Per (pattern, type):
-//   obs     typematch.Pattern.MatchIdentical (one MatcherState reused for all calls)
-//   oracle  brute force: every assignment of the pattern's variables to sub-types / lengths of the type, every split of the
-//           $*_ runs, variables compared with types.Identical
-//   closed  for variable-free patterns without struct / interface parts: types.Identical(the type the pattern spells, type)
+//
+//	obs     typematch.Pattern.MatchIdentical (one MatcherState reused for all calls)
+//	oracle  brute force: every assignment of the pattern's variables to sub-types / lengths of the type, every split of the
+//	        $*_ runs, variables compared with types.Identical
+//	closed  for variable-free patterns without struct / interface parts: types.Identical(the type the pattern spells, type)
+//
 // The parsed tree (verif hook VerifDump) is compared with the tree the generator meant.
 // Output: one JSON object.
 package main
@@ -794,9 +796,9 @@ type out struct {
 	HasSeq   []bool   `json:"has_seq"`
 	GenName  []bool   `json:"names_generic"` // the pattern names a generic type (gen.L): recorded finding
 	AliasNm  []bool   `json:"names_alias"`   // the pattern has a qualified alias name (pool.A): recorded finding
-	Obs      []string `json:"obs"`    // rows: pattern x type
-	Oracle   []string `json:"oracle"` // brute force
-	Closed   []string `json:"closed"` // '0'/'1' types.Identical for closed patterns, '-' not applicable
+	Obs      []string `json:"obs"`           // rows: pattern x type
+	Oracle   []string `json:"oracle"`        // brute force
+	Closed   []string `json:"closed"`        // '0'/'1' types.Identical for closed patterns, '-' not applicable
 	Vendored []bool   `json:"vendored"`
 	Instd    []bool   `json:"instantiated"`
 	ParseErr []string `json:"parse_err"`
